@@ -167,8 +167,8 @@ def mk_registry(h, n=3):
     return reg, orders, active
 
 
-def t_registry(h):
-    reg, orders, active = mk_registry(h)
+def t_registry(h, n=3):
+    reg, orders, active = mk_registry(h, n)
     h.cover('registry.pre')
     cnt = h.method(reg, 'count_active_orders', 'Sandbox', 'BTC-USDT')
     want = h.spec('active_count', [o.f['status'] for o in orders])
@@ -276,8 +276,9 @@ def tasks(tier):
                     ts.append(Task(f'{op}.{status}.{otype}.{side}', t_lifecycle(op, status, otype, side), extra=x, overrides=dict(ov)))
     ts.append(Task('writers', t_writers, extra=x))
     xb = dict(x)
-    xb['bounded'] = 'registry of N=3 orders (statuses symbolic)'
-    ts.append(Task('registry', t_registry, extra=xb, overrides=dict(ov)))
+    n_reg = 3 if tier == 'quick' else 5
+    xb['bounded'] = f'registry of N={n_reg} orders (statuses symbolic)'
+    ts.append(Task('registry', (lambda h: t_registry(h, n_reg)), extra=xb, overrides=dict(ov), max_paths=200000))
     ts.append(Task('pending', t_pending, extra=x, overrides=dict(ov)))
     ts.append(Task('market-order', t_market_order_queued, extra=x, overrides=dict(ov)))
     for side in ('buy', 'sell'):
